@@ -349,6 +349,9 @@ class MStmts:
             return f"(Err.{a[1][1][-1]} {self.arg(v, ctx)})"
         raise ShapeError(f"{ctx.what}: this error value is outside the subset")
 
+    def callee_modifies(self, key):
+        return self.translate_m(key).modifies
+
     def modifies_self(self, node, env, ctx):
         """may the statements assign fields of the state record?"""
         if ctx.record is None:
@@ -372,7 +375,7 @@ class MStmts:
                 if n and n[0] == "mcall" and n[1] == ("path", ["self"]):
                     key = (ctx.self_mode[1], n[2])
                     if key in self.items.fns and self.is_monadic(key):
-                        if key in self.m_in_progress or self.translate_m(key).modifies:
+                        if key in self.m_in_progress or self.callee_modifies(key):
                             found[0] = True
                 if n and n[0] == "mcall" and n[2] == "fill":
                     pass
@@ -474,6 +477,12 @@ class MStmts:
                             if not self.is_cache_recv(a, ctx):
                                 raise ShapeError(f"{ctx.what}: the block cache must be passed on as it is")
                             continue
+                        sp = self.special_arg(pn, pty, a, env, ctx)
+                        if sp is not None:
+                            if sp != "":        # "" = the callee has no Lean parameter for it
+                                next(it)
+                                actual.append(sp)
+                            continue
                         v = self.tr(a, env, ctx)
                         lp, lt = next(it)
                         self.unify(v.ty, lt, ctx.what)
@@ -542,6 +551,16 @@ class MStmts:
                 return env2
             if p[0] == "pwild" or (p[0] == "ptuple" and not p[1] and not p[2]):
                 return env2
+            if p[0] == "ptuple" and not p[1] and pat[1] == ["Some"] and self.res(case[2])[0] == "tuple" and \
+                    len(self.res(case[2])[1]) == len(p[2]) and all(q[0] in ("pbind", "pwild") for q in p[2]):
+                # `Some((a, b, ..))`: the components of the payload
+                tys = self.res(case[2])[1]
+                for idx, (q, qt) in enumerate(zip(p[2], tys)):
+                    if q[0] == "pbind":
+                        self.check_local(q[1], ctx)
+                        proj = ".2" * idx + (".1" if idx < len(tys) - 1 else "")
+                        env2[q[1]] = ("val", f"{lname(case[1])}{proj}", qt)
+                return env2
             raise ShapeError(f"{ctx.what}: nested pattern inside {pat[1][0]}(..) is outside the subset")
         if pat[0] == "ptuple" and pat[1] == ["Err"] and len(pat[2]) == 1:
             if case[0] != "err":
@@ -556,6 +575,19 @@ class MStmts:
             if p[0] in ("ppath", "ptuple") and len(p[1]) >= 2 and p[1][-2] == "Error":
                 return dict(env) if case[1] == p[1][-1] else None
             raise ShapeError(f"{ctx.what}: error pattern outside the subset")
+        if pat[0] == "pbind" and case[0] in ("ok", "err"):
+            # `x => ..` as the last arm of a match on an outcome: `x` is the outcome itself
+            self.check_local(pat[1], ctx)
+            env2 = dict(env)
+            if case[0] == "ok":
+                if case[2] == ("blockref",):
+                    raise ShapeError(f"{ctx.what}: a catch-all binding of a block reference is outside the subset")
+                val = "(Res.ok ())" if self.res(case[2]) == ("unit",) else f"(Res.ok {lname(case[1])})"
+                env2[pat[1]] = ("res", val, case[2])
+            else:
+                val = f"(Res.err Err.{case[1]})" if case[1] is not None else f"(Res.err {case[2]})"
+                env2[pat[1]] = ("res", val, getattr(self, "_okty", None) or self.fresh_any())
+            return env2
         if pat[0] == "pbind":
             raise ShapeError(f"{ctx.what}: a catch-all binding arm is outside the subset here")
         raise ShapeError(f"{ctx.what}: pattern outside the subset")
@@ -597,6 +629,7 @@ class MStmts:
     def outcome_cases(self, rlean, okty, arms, env, ctx, leaf):
         """match on an attempted outcome `r : Res τ`"""
         nm = self.payload_name(arms, "Ok") or self.tmp()
+        self._okty = okty
         if okty == ("blockref",):
             out = ["| Res.ok _ => " + self.bind(self.cache_blk, lname(nm),
                                                self.render_tree(self.resolve(arms, ("ok", nm, okty), env, ctx), leaf))]
@@ -1145,6 +1178,14 @@ class MFlow:
             if cls[3]:
                 return self.bind(cls[1], "_", kx("()", ("blockref",), env))
             return self.bind(cls[1], t, kx(t, cls[2], env))
+        if cls[0] == "mo" and len(cls) > 6 and cls[6]:
+            # a callee that hands `&mut` arguments back and does not return a `Result`: its value is used as it is
+            # (an `Err` cannot come out of it; it is passed on if it did)
+            v, er, pm = self.tmp(), self.tmp(), self.tmp()
+            return self.mo_call(cls, env, ctx, lambda r, env2: (
+                f"(match {r} with | Res.ok {v} => {kx(v, cls[2], env2)} "
+                f"| Res.err {er} => {self.mon}.fail {er} "
+                f"| Res.panic {pm} => {self.mon}.panic {pm} | Res.diverged => {self.mon}.diverge)"))
         if cls[0] != "pure":
             raise ShapeError(f"{ctx.what}: a Result used as a value is outside the subset (only `?`, `match`, or a "
                              f"`let` binding)")
@@ -1178,6 +1219,9 @@ class MFlow:
             if returns_value(rhs) or has_node(rhs, ("break", "continue")):
                 return self.mexpr_k(rhs, env, ctx, lambda val, t, _e: self.bind(
                     ctx.record["setter"](lean_f, val), "_", cont(env)))
+            if self.mstate_vars(rhs, env, ctx):
+                raise ShapeError(f"{ctx.what}: locals assigned inside the right-hand side of `self.{f} = ..` "
+                                 "are outside the subset")
             t = self.tmp()
             text = self.mexpr_k(rhs, env, ctx, lambda val, ty, _e: f"(pure {val})")
             return self.bind(text, t, self.bind(ctx.record["setter"](lean_f, t), "_", cont(env)))
@@ -1191,13 +1235,27 @@ class MFlow:
         if lhs[0] == "path" and len(lhs[1]) == 1 and lhs[1][0] in env and env[lhs[1][0]][0] == "val" and op == "=":
             n = lhs[1][0]
             tys = []
+            if returns_value(rhs) or (ctx.outparams and has_node(rhs, ("try", "return"))):
+                # the right-hand side may leave the function: the rest of the block goes inside
+                def kc(val, t, _e):
+                    self.unify(env[n][2], t, ctx.what)
+                    return f"(let {env[n][1]} := {val}; {cont(env)})"
+                return self.mexpr_k(rhs, env, ctx, kc)
+            # other locals assigned inside the right-hand side travel with its value
+            names = [x for x in self.mstate_vars(rhs, env, ctx) if x != n]
 
             def kj(val, t, _e):
                 tys.append(t)
+                if names:
+                    return f"(pure ({val}, {self.tuple_m(names, _e)}))"
                 return f"(pure {val})"
             text = self.mexpr_k(rhs, env, ctx, kj)
             for t2 in tys:
                 self.unify(env[n][2], t2, ctx.what)
+            if names:
+                st = self.tmp()
+                return self.bind(text, st, f"(let {env[n][1]} := {st}.1; " +
+                                 self.unpack_m(names, st + ".2", env, cont(env)) + ")")
             return self.bind(text, env[n][1], cont(env))
         return self.st_mblockwrite(e, env, ctx, cont)
 
@@ -1287,6 +1345,12 @@ class MLoops:
         _, pat, it, body = s
         if self.is_effectful(it, env, ctx):
             raise ShapeError(f"{ctx.what}: effects in the iterator expression of a `for` are outside the subset")
+        # `ITER.skip(k)` with a literal `k`: `next` is called `k` times first and its results are dropped
+        skips = 0
+        if it[0] == "mcall" and it[2] == "skip" and len(it[3]) == 1 and it[3][0][0] == "lit" and \
+                isinstance(it[3][0][1], int) and 0 <= it[3][0][1] <= 4:
+            skips = it[3][0][1]
+            it = it[1]
         itv = self.tr(it, env, ctx)
         ity = self.res(itv.ty)
         if ity[0] != "struct" or (ity[1], "next") not in self.items.fns:
@@ -1324,6 +1388,8 @@ class MLoops:
             return f"(match {call} with | (some {lv}, {itn}) => {btext} | (none, {itn}) => {done(env_l)})"
         text = self.loop_core(env2, ctx, lambda env3: cont({k2: v2 for k2, v2 in env3.items() if k2 != itn}),
                               names, body, make)
+        for _k in range(skips):
+            text = f"(let {itn} := {call}.2; {text})"
         return f"(let {itn} := {itv.lean}; {text})"
 
     def loop_core(self, env, ctx, cont, names, node, make, count=None):
@@ -1422,13 +1488,17 @@ class MFns:
         info = MInfo((decl.impl + "_" if decl.impl else "") + decl.name)
         ctx.info = info
         self_kind, params = parse_params(decl, self.items)
-        if self_kind is not None:
+        selfval = self.self_value(decl, self_kind) if self_kind is not None else None
+        if self_kind is not None and selfval is None:
             if decl.impl not in RECORDS:
                 raise ShapeError(f"{what}: `self` of {decl.impl} has no place in the model's state")
             ctx.record = RECORDS[decl.impl]
             ctx.self_mode = ("record", decl.impl)
         monadic = self.is_monadic(key)
         env, plist = {}, []
+        if selfval is not None:
+            env["self"] = ("val", "self_", selfval)
+            plist.append(("self_", selfval))
         for pn, pty in params:
             t = pty
             while t[0] == "tref":
@@ -1437,11 +1507,14 @@ class MFns:
                 ctx.cache_param = pn
                 continue
             self.check_local(pn, ctx)
+            if self.special_param(pn, pty, env, plist, ctx):
+                continue
             ty = self.conv_type(pty, f"{what}: parameter {pn}", decl.impl)
             env[pn] = ("val", lname(pn), ty)
             plist.append((lname(pn), ty))
             if pty[0] == "tref" and len(pty) == 3:
-                if ty[0] == "tuple" and all(self.res(x)[0] in ("int", "usize", "nt") for x in ty[1]):
+                if (ty[0] == "tuple" and all(self.res(x)[0] in ("int", "usize", "nt") for x in ty[1])) or \
+                        self.is_value_outparam(ty):
                     ctx.outparams.append((pn, lname(pn)))
                 elif ty[0] == "bytes":
                     ctx.outbufs.append((pn, lname(pn)))
@@ -1451,7 +1524,7 @@ class MFns:
         info.outbufs = [pn for pn, _l in ctx.outbufs]
         info.param_names = [pn for pn, _t in params if not (lambda t: t[0] == "ty" and t[1] == CACHE_PARAM_TYPE)(
             (lambda t: t[1] if t[0] == "tref" else t)(_t))]
-        body = parse_fn_body(decl, self.items)
+        body = self.rewrite_body(parse_fn_body(decl, self.items), env, ctx)
         doc = f"`{(decl.impl + '::') if decl.impl else ''}{decl.name}` ({decl.where})"
         if not monadic:
             if ctx.record is None:
@@ -1469,9 +1542,10 @@ class MFns:
             info.doc = doc + (", as a function of the volume record" if decl.impl == "FatVolume" else ", as a function of the state")
         else:
             info.ret, info.fallible, info.blockref = self.ret_info(decl, ctx)
+            info.ret = self.adjust_ret(info.ret, env, ctx)
             info.modifies = self.modifies_self(body, env, ctx) if self.self_is_mut(decl, self_kind) else False
             text = self.mrun(list(body[1]), env, ctx, lambda env2: self.mreturn(body[2], env2, ctx))
-            if ctx.record is not None and self.mentions_self(body):
+            if ctx.record is not None and (self.mentions_self(body) or info.aux):
                 text = self.refetch(ctx, text)
             if text.startswith("(") and text.endswith(")") and _balanced(text[1:-1]):
                 text = text[1:-1]
@@ -1488,6 +1562,30 @@ class MFns:
 
     def self_is_mut(self, decl, self_kind):
         return bool(self_kind) and "mut" in self_kind
+
+    def special_param(self, pn, pty, env, plist, ctx):
+        """hook: a parameter with a representation of its own (returns True when it has been entered)"""
+        return False
+
+    def rewrite_body(self, body, env, ctx):
+        """hook: the parsed body before it is translated"""
+        return body
+
+    def self_value(self, decl, self_kind):
+        """hook: the type of a `self` taken by value that is an ordinary value (not a state record), or None"""
+        return None
+
+    def is_value_outparam(self, ty):
+        """hook: may a `&mut` parameter of this type be handed back next to the result?"""
+        return False
+
+    def adjust_ret(self, ret, env, ctx):
+        """hook: the success type of the function"""
+        return ret
+
+    def special_arg(self, pn, pty, a, env, ctx):
+        """hook: the Lean text passed for such a parameter of a callee, or None"""
+        return None
 
     def raw_ret_lean(self, info, what):
         """Lean type of what the computation yields (with the `&mut` parameters it hands back)"""
@@ -1608,6 +1706,7 @@ def setTag (t : Option Nat) : F Unit := fun s => (.ok (), { s with cache := { s.
 def pretty_m(s, base=2):
     """line breaks after binds and before match arms; indentation follows the bracket depth"""
     out, depth, i, n = [], 0, 0, len(s)
+    braces = 0      # inside a structure instance `{ .. }` nothing is broken (its fields are newline-sensitive)
     pat = re.compile(r" >>= fun [A-Za-z0-9_']+ => ")
     while i < n:
         c = s[i]
@@ -1615,6 +1714,14 @@ def pretty_m(s, base=2):
             depth += 1
         elif c in ")]}":
             depth -= 1
+        if c == "{":
+            braces += 1
+        elif c == "}":
+            braces -= 1
+        if braces > 0:
+            out.append(c)
+            i += 1
+            continue
         m = pat.match(s, i)
         if m:
             out.append(m.group(0).rstrip() + "\n" + " " * (base + min(depth, 30)))
